@@ -14,6 +14,7 @@ import (
 	"os"
 	"path/filepath"
 	"strings"
+	"sync"
 
 	"massnet.org/mass/config"
 	"massnet.org/mass/poc/wallet/keystore"
@@ -570,6 +571,59 @@ func main() {
 			k = nk
 			c.path = append(c.path, path[depth])
 			nontrivial = true
+		}
+		if si%4 == 1 {
+			// one key object used by several goroutines at once, read-only: normal children of the public key of the last
+			// node and of the node itself once its public key has been computed (Neuter above): every child must be the
+			// BIP32 child whatever the other goroutines derive meanwhile
+			sharedParents := []*hdkeychain.ExtendedKey{k}
+			if pk, err := k.Neuter(); err == nil {
+				sharedParents = append(sharedParents, pk)
+			}
+			for _, parent := range sharedParents {
+				wp, err := fromImpl(parent)
+				if err != nil {
+					continue
+				}
+				idx := make([]uint32, 24)
+				for j := range idx {
+					idx[j] = randIndex(rng) &^ H
+				}
+				got := make([]*hdkeychain.ExtendedKey, len(idx))
+				var wg sync.WaitGroup
+				for g := 0; g < 4; g++ {
+					wg.Add(1)
+					go func(g int) {
+						defer wg.Done()
+						defer func() {
+							if r := recover(); r != nil {
+								cc := &ctx{run: run, ci: ci, seed: seed, path: append([]uint32{}, c.path...)}
+								run.Violate(ci, "derivation-panicked-under-concurrent-derivation", cc.attrs("shared-parent"), cc.detail(map[string]interface{}{"panic": fmt.Sprint(r), "parent_is_private": parent.IsPrivate(), "goroutines": 4}))
+							}
+						}()
+						for r := 0; r < 8; r++ {
+							for j := g; j < len(idx); j += 4 {
+								if ck, err := parent.Child(idx[j]); err == nil && (got[j] == nil || r == 7) {
+									got[j] = ck
+								}
+							}
+						}
+					}(g)
+				}
+				wg.Wait()
+				for j, ck := range got {
+					wc, werr := wp.Child(idx[j])
+					if werr != nil || ck == nil {
+						continue
+					}
+					run.Count("children_derived_from_a_shared_key_object", 1)
+					if gc, err := fromImpl(ck); err != nil || !gc.Equal(wc) {
+						cc := &ctx{run: run, ci: ci, seed: seed, path: append(append([]uint32{}, c.path...), idx[j])}
+						run.Violate(ci, "bip32-child-mismatch-under-concurrent-derivation", cc.attrs("shared-parent"), cc.detail(map[string]interface{}{"impl": ck.String(), "parent_is_private": parent.IsPrivate(), "goroutines": 4}))
+						break
+					}
+				}
+			}
 		}
 		run.Case(vh.Hash64(seed, []byte(fmt.Sprint(path))), nontrivial && (sawHard || sawNormal))
 		if si < 3 {
